@@ -6,7 +6,7 @@
      char.size,char.align,string.size,string.align,ipaddr…,prefix…,list…
    `cfg` is `current` (generated from the source) or `pinned`.
 
-     c05 layout H T            → rust S A roto S A isref B lower X offs R… / U…
+     c05 layout H T            → rust S A roto S A isref B lower X offs R… / U… asparam X
      c05 sig H cfg RET ; P1 ; P2 …
                                 → roto <IrTypes> retptr B ret X rotoabi <…> -> X rustabi <…> -> X agree B
      c05 call H cfg RET ; P…   → callsite <…> -> X callee <…> -> X agree B
@@ -94,8 +94,6 @@ def showAbiSig (s : AbiSig) : String := s!"{commas (s.params.map showAbi)} -> {s
 def showRes {α} (f : α → String) : Res α → String
   | .ok a => f a | .panic => "panic"
 
-def variantsOf : BTy → Option (List (List MTy) × List (List Layout) → Unit) := fun _ => none
-
 /-- payload offsets per variant with exactly one field: Roto's `VariantField` offset and the
     closed-form Rust offset -/
 def offsets (h : HostLayouts) (t : BTy) : String :=
@@ -119,7 +117,7 @@ def doLayout (h : HostLayouts) (t : BTy) : String :=
   let r := rustLayout h t
   let ro := rotoLayout h t
   let m := toMTy t
-  s!"rust {r.size} {r.align} roto {showOpt (fun (l : Layout) => s!"{l.size} {l.align}") ro} isref {showOB (isReferenceType Cfg.current h m)} lower {showRes (showOpt showIr) (lowerType Cfg.current h m)} offs {offsets h t}"
+  s!"rust {r.size} {r.align} roto {showOpt (fun (l : Layout) => s!"{l.size} {l.align}") ro} isref {showOB (isReferenceType Cfg.current h m)} lower {showRes (showOpt showIr) (lowerType Cfg.current h m)} offs {offsets h t} asparam {showRes (showOpt showAbi) (asParamAbi t)}"
 
 def doSig (c : Cfg) (h : HostLayouts) (s : BSig) : String :=
   let irs := keepArgs c h c.sigFilter (s.params.map toMTy)
